@@ -472,12 +472,22 @@ for _id, _rules in _EXTRA.items():
 # every property handles Atoms objects: no method keeps state the constructor does not know (results must not depend on the history of calls on an object)
 for _id in sorted(PROPERTIES):
     PROPERTIES[_id]["rules"].append((G2.G35_hidden_instance_state, "%s Atoms methods keep no state outside the fields the constructor creates (no memo of earlier calls on the object)" % _id))
+for _id in ("C04", "C06", "C08", "C09", "C10", "C11", "C12", "C16"):
+    PROPERTIES[_id]["rules"].append((G2.G37_constructor_copies_arrays, "%s objects do not share array storage: the constructor copies the arrays it is given (no np.asarray of an argument stored on the object)" % _id))
 for _id in ("C09", "C13", "C15", "C16", "C20"):
     PROPERTIES[_id]["rules"].append((G2.G33_effect_before_validation, "%s readers / writers: a refusal that depends on the arguments comes before the target file is opened for writing; a file object handed in by the caller is not closed" % _id))
 for _id in ("C15", "C16"):
     PROPERTIES[_id]["rules"].append((B.G1_no_swallowed_errors, "%s the dispatcher and the reader let their refusals (non-P1 symmetry, unsupported type, malformed input) reach the caller: no handler swallows them" % _id))
 for _id in ("C13", "C15", "C16", "C17", "C20"):
     PROPERTIES[_id]["rules"].append((A.A21_no_mutable_default_mutation, "%s results do not depend on earlier calls: parameters with mutable defaults are never written" % _id))
+_SEARCH_TOL = (("mofun.mofun", None), ("mofun.helpers", None))
+for _id in ("C01", "C02", "C03", "C04", "C05", "C08"):
+    PROPERTIES[_id]["rules"].append((G2.G38_tolerance_dimension, "%s every deviation compared with atol is a length, not a squared length" % _id, {"scope": _SEARCH_TOL}))
+for _id in ("C09", "C10"):
+    PROPERTIES[_id]["rules"].append((G2.G36_refusal_before_mutation, "%s a deletion request that numpy refuses (index out of range) is refused before any term has been dropped or renumbered" % _id))
+for _id in sorted(PROPERTIES):
+    PROPERTIES[_id]["decided"] += ("; contracts of the library calls used in the anchored functions (strip() character sets, split(' '), np.vectorize on empty input, integer reciprocal, row-wise isin, "
+                                   "isclose on indices, borrowed string dtypes, array == literal), scratch containers reset on every loop path, no method of Atoms keeps state the constructor does not create")
 PROPERTIES["C07"]["rules"].append((C.C_idx_find, "C07 an overlap can only be refused if both occurrences reach the guard: the duplicate key of the search keeps multiplicity (a set-valued key merges distinct occurrences that use the same atoms through different images)"))
 PROPERTIES["C18"]["decided"] += ("; the torsion case analysis of dihedral_params, evaluated over the finite partition of hybridisation characters and element classes induced by its own "
                                  "comparisons, selects the documented case (n, sign, barrier monomial incl. the division by the multiplicity) for every combination; user bond-order rules dominate built-in guesses")
